@@ -37,3 +37,7 @@ func TestDeploy(t *testing.T) {
 		t.Log(r.Value)
 	}
 }
+
+func TestExtras(t *testing.T) {
+	t.Log(len(Extras()), len(UniversePlus(1)), len(UniversePlus(2)))
+}
